@@ -126,6 +126,14 @@ static Bytes seed_file(Rng &r, int fmt, std::string &fmtname)
         fmtname = "xmiloops";
         Bytes b;
         b.push_back(0xFF); b.push_back(0x51); b.push_back(0x03); put_be(b, (uint64_t)r.pick((const int[]){500000, 100000, 3, 1000000}), 3);
+        if(r.chance(0.15))
+        {   // a long SysEx / meta payload that is really there (the converter copies it into a buffer it grows in 8 KiB steps)
+            xmi_delay(b, (uint32_t)r.range(0, 10));
+            size_t L = (size_t)r.pick((const int[]){100, 8200, 16400, 30000, 50000});
+            if(r.chance(0.7)) b.push_back(0xF0); else { b.push_back(0xFF); b.push_back(0x01); }
+            put_vlq(b, L);
+            for(size_t q = 0; q < L; q++) b.push_back((uint8_t)(q & 0x7F));
+        }
         int n = r.range(2, 24), depth = 0;
         if(r.chance(0.5))
         {   // loops that the loader accepts: every FOR is closed by exactly one NEXT or BREAK; bodies long enough to seek into
